@@ -74,8 +74,8 @@ theorem handshake_uses_new_slot (cfg : Cfg) (w : World) : (connect cfg w).1.logs
   connect_nlogs cfg w
 
 /-- inside an exchange the client never switches connections. -/
-theorem same_connection_within_exchange (d : SeqDesc) (w : World) (c : ConnSt) (st : SeqSt) :
-    (seqNext d w c st).2.2.1.id = c.id := (seqNext_conn d w c st).2
+theorem same_connection_within_exchange (d : SeqDesc) (dl : Nat) (w : World) (c : ConnSt) (st : SeqSt) :
+    (seqNext d dl w c st).2.2.1.id = c.id := (seqNext_conn d dl w c st).2
 
 /-- non-vacuity / vetting on a concrete run: a terminal reporting a different serial is registered with,
 asked for its identity — and then dropped without a single command. -/
